@@ -167,7 +167,15 @@ class Ctx:
         """Run check(case) -> R, turning escaped exceptions of the code under test into failures."""
         self._journal(case)
         try:
-            res = check(case)
+            if isinstance(case, dict) and case.get("kind") == "_repeat":
+                # replay form of a case whose verdict varied between executions in one process: run it several times
+                res = None
+                for _ in range(int(case.get("times", 8))):
+                    res = check(case["case"])
+                    if res.fails:
+                        break
+            else:
+                res = check(case)
         except HarnessError:
             raise
         except Exception as exc:  # classified, never swallowed
@@ -259,10 +267,9 @@ class Ctx:
                 raise HarnessError(f"Hypothesis health check failed in {sub}: {e}") from e
             except hypothesis.errors.Flaky as e:
                 # A case failed once and passed on re-execution.  The harness is a pure function of the case, so the
-                # code under test kept hidden state between executions.  Where that *is* the property (results depend
-                # only on the definition and the seed) it is reported as a violation whose replay runs the case
-                # repeatedly in one process; elsewhere it cannot be attributed and is a harness error.
-                if self.job.get("flaky_is_violation") and state["last"] is not None:
+                # code under test kept hidden state between executions - and in one of them the property was seen
+                # to fail.  It is reported as a violation whose replay runs the case repeatedly in one process.
+                if state["last"] is not None:
                     case, f = state["last"]
                     f2 = Fail("verdict_varies_between_executions|" + f.sig, f.detail)
                     self._add_violation(sub, {"kind": "_repeat", "times": 8, "case": jsonable(case)}, f2)
